@@ -114,6 +114,7 @@ package goat
 //@   ensures[C03.error_status] bound("appErr") && appErr != nil ==> result.Status != nil && (isStatus(appErr) && stCode(appErr) != 0 ==> result.Status.Code == stCode(appErr) && result.Status.Message == stMsg(appErr) && result.Status.Details == stDetails(appErr))
 //@   ensures[C03.plain_error_text] bound("appErr") && appErr != nil && !isStatus(appErr) ==> result.Status.Code != 0 && result.Status.Message == errText(appErr)
 //@   ensures[C03.error_never_ok] bound("appErr") && appErr != nil ==> result.Status != nil && result.Status.Code != 0
+//@   atcall[C10.unary_handler_ctx_descends C07.unary_handler_ctx_descends] fnfield:H.google.golang.org/grpc.MethodDesc.Handler : desc(arg1, clientCtx)
 //@   ensures[C01.reply_body] bound("resp") && resp != nil && bound("err") && err == nil ==> result.Body != nil && result.Body.Data == protoBytes(resp)
 
 //@ objinv[C10.objinv C12.objinv] goat.Server : self.ctx != nil && self.cancel != nil && self.services != nil && (forall j Int :: 0 <= j && j < len(self.statsHandlers) ==> self.statsHandlers[j] != nil)
@@ -163,6 +164,7 @@ package goat
 //@   loop 1 invariant[C12.client_ctx] clientCtx != nil
 //@   loop 2 invariant[C12.client_ctx] clientCtx != nil
 //@   ensures[C10.conn_ctx_cancelled_on_exit] done(h.ctx)
+//@   ensures[C10.unary_ctx_cancelled_on_exit] done(unaryClientCtx)
 //@   ensures[C10.exit_only_on_error] result != nil
 
 // ---------------------------------------------------------------------------------
@@ -519,6 +521,9 @@ package goat
 //@ func goat.(*Proxy).AddClient
 //@   requires conn != nil
 
-// unary worker of a connection
+// unary worker of a connection: every blocking step has a context escape, and handlers run under the
+// connection-scoped child of the caller's context that serve cancels on return
 //@ func goat.(*handler).serve$3
-//@   captures clientCtx != nil
+//@   ctxaware[C10.unary_worker_escapes]
+//@   captures unaryClientCtx != nil
+//@   atcall[C10.unary_handler_ctx_ends_with_connection] goat.(*handler).processUnaryRpc : arg1 == unaryClientCtx
